@@ -59,6 +59,7 @@ static void do_moments()
         case 5: ps.average(1); break;
         case 6: ps.variance(0); break;
         case 7: ps.variance(1); break;
+        case 8: ps.integrateAndNormalize(); break;
         default: break;
         }
     }
